@@ -102,6 +102,9 @@ def f_type_flat():
     out.append({"k%d" % i: v for i, v in enumerate(V)})
     out.append([1, True, 1.0, 0, False, 0.0])
     out.append([1.0, 1, False, 0])
+    # wide containers (the exhaustive families stop at 3-5 items: these keep "only the first n items" visible)
+    out.append(list(range(12)) + ["a", None, [1], {"a": 1}])
+    out.append({("k%d" % i if i % 3 else i): (i if i % 2 else str(i)) for i in range(14)})
     return out
 
 
@@ -140,5 +143,8 @@ def f_deep():
         {"k": {"a": 1}, "l": {"a": {"a": 1}}, "m": {"a": {"a": {"a": "1"}}}},
         [{"a": []}, {"a": [0]}, {"a": [[]]}, {"a": [[0]]}, {"a": {}}],
         {"a": {"x": 1}, "b": {"y": [1]}, "c": 1, "d": {"y": [2, 3]}},
+        # wide and deep: 12 siblings per level, 6 levels
+        {"a": [{"a": i, "b": [i, str(i)]} for i in range(12)], "b": {("k%d" % i): [i] for i in range(12)}},
+        {"a": {"a": {"a": {"a": {"a": {"a": 1, "b": "3"}}, "b": [[[[["true"]]]]]}}}, 0: [[[[[[0]]]]]]},
     ]
     return out
